@@ -84,12 +84,18 @@ def gen_history(rng, icvn, budget=60):
         for g in range(n_gs):
             last_gs = g == n_gs - 1
             gctl = str(g0 + g)
+            if g and rng.random() < 0.08:
+                gctl = str(g0 + g - 1)          # a group control number reused within the interchange
+                stats.append('dup_gs06')
             ev.append(['GS', 'HC', 'SENDER', 'RECEIVER', '20040102', '1230', gctl, 'X', '004010X098A1'])
             n_st = rng.choice([0, 1, 1, 2, 4])
             s0 = rng.randint(1, 9000)
             for s in range(n_st):
                 last_st = s == n_st - 1
                 sctl = '%04d' % (s0 + s)
+                if s and rng.random() < 0.12:
+                    sctl = '%04d' % (s0 + rng.randrange(0, s))     # a set control number reused within the group
+                    stats.append('dup_st02')
                 ev.append(['ST', '837', sctl])
                 nb = rng.randint(0, 6)
                 for _ in range(nb):
@@ -212,7 +218,10 @@ def check_output(events, d, sink, out, tag):
         # independent recount on the output
         flat = [[s.id] + [d['subele_term'].join(c) for c in s.elements] for s in tk.segs]
         rc = E.recount(flat)
-        errs = [e for e in rc.errors if (e[1], e[2]) in E.TRACKED and e[2] not in ('HL1', 'HL2', 'LX')]
+        # reused control numbers are the caller's doing (the statement promises true counts and matching trailers, not
+        # uniqueness): the uniqueness codes are not held against the writer
+        uniq = (('st', '23'), ('gs', '6'), ('isa', '025'))
+        errs = [e for e in rc.errors if (e[1], e[2]) in E.TRACKED and e[2] not in ('HL1', 'HL2', 'LX') and (e[1], e[2]) not in uniq]
         if not rc.nested or errs:
             out.violate('recount', 'recount|%s' % ','.join(sorted(set('%s%s' % (e[1], e[2]) for e in errs)) or ['improper']),
                         '%s: independent recount of the output finds %r nested=%s' % (tag, errs, rc.nested))
@@ -229,7 +238,7 @@ def check_output(events, d, sink, out, tag):
         except Exception as e:
             out.violate('reread', 'reread-exception|' + _c01.exc_sig(e), '%s: reader raised on writer output: %s' % (tag, e))
             return
-        bad = sorted(set(e for e in errs if e in E.TRACKED and e[1] not in ('HL1', 'HL2', 'LX')))
+        bad = sorted(set(e for e in errs if e in E.TRACKED and e[1] not in ('HL1', 'HL2', 'LX') and e not in uniq))
         if bad:
             out.violate('reread', 'reread-envelope-error|%s' % ','.join('%s%s' % e for e in bad),
                         '%s: reader reports %r on writer output' % (tag, bad))
